@@ -554,11 +554,37 @@ def literal_keys(rng, B):
 
     def access():
         k = rng.choice(B) if rng.random() < 0.7 else rng.getrandbits(rng.choice([8, 64, 65, 128, 129, 255, 256]))
-        mode = rng.choice(["r", "w", "rw", "wr"])
+        mode = rng.choice(["r", "w", "rw", "wr", "rmw-mask", "rmw-or", "rmw-add", "rmw-packed", "copy", "rmw-shift"])
         keys.setdefault(k, set()).add(mode)
         kp = k if k else ("push", 0, 1)
         if rng.random() < 0.3:
             kp = ("push", k, 32)
+        masks = [0xff, 0xffff, (1 << 160) - 1, (1 << 128) - 1, evm.M256 ^ 0xff, evm.M256 ^ (0xffff << 8), 1, 0xff00]
+        if mode == "rmw-mask":
+            a.emit(kp, "SLOAD", ("push", rng.choice(masks), None), "AND", kp, "SSTORE")
+            return
+        if mode == "rmw-or":
+            a.emit(kp, "SLOAD", ("push", evm.M256 ^ 0xffff, 32), "AND", kp, "SLOAD", ("push", 0xffff, None), "AND", "OR", kp, "SSTORE")
+            return
+        if mode == "rmw-add":
+            a.emit(kp, "SLOAD", rng.choice([1, 2, 32]), rng.choice(["ADD", "MUL", "SUB", "XOR"]), kp, "SSTORE")
+            return
+        if mode == "rmw-packed":
+            off, w = rng.choice([0, 8, 160]), rng.choice([8, 64])
+            m = (1 << w) - 1
+            a.emit(kp, "SLOAD", ("push", evm.M256 ^ (m << off), 32), "AND", "CALLVALUE", ("push", m, None), "AND")
+            if off:
+                a.emit(("push", 1 << off, None), "MUL")
+            a.emit("OR", kp, "SSTORE")
+            return
+        if mode == "rmw-shift":
+            a.emit(kp, "SLOAD", rng.choice([8, 128, 160]), rng.choice(["SHR", "SHL"]), ("push", rng.choice(masks), None), "AND", kp, "SSTORE")
+            return
+        if mode == "copy":
+            k2 = rng.choice(list(keys)) if rng.random() < 0.7 else rng.choice(B)
+            keys.setdefault(k2, set()).add("r")
+            a.emit(k2 if k2 else ("push", 0, 1), "SLOAD", kp, "SSTORE")
+            return
         for m in mode:
             if m == "r":
                 a.emit(kp, "SLOAD", rng.choice(["POP", "POP", "ISZERO"]))
